@@ -168,6 +168,7 @@ type tr =
 | TPrefetch of tr * cand list * bool
 | TCharset of tr * bool
 | TUniquified of tr * bool * text list
+| TSimplified of (cand -> (cand * cand list) option) * tr * cand list * bool
 
 val exhausted : tr -> bool
 
@@ -206,6 +207,10 @@ val rewrite_at : nat -> cand -> cache -> cache
 
 val has_text : text list -> text -> bool
 
+val max_forms : nat
+
+val forms_of : (cand -> (cand * cand list) option) -> cand -> cand list
+
 val distinct_loop :
   (tr -> cache -> (bool * tr) * cache) -> nat -> tr -> text list -> cache ->
   (tr * bool) * cache
@@ -221,6 +226,10 @@ val uniquify :
 val rearrange :
   (tr -> cache -> (bool * tr) * cache) -> nat -> tr -> cand list -> cand list
   -> cache -> (tr * cand list) * cache
+
+val settle :
+  (tr -> cache -> (bool * tr) * cache) -> (cand -> (cand * cand list) option)
+  -> tr -> cache -> tr * cache
 
 val dead : tr
 
@@ -246,6 +255,9 @@ val mk_single_char : nat -> tr -> cache -> tr * cache
 
 val mk_charset : nat -> tr -> cache -> tr * cache
 
+val mk_simplified :
+  nat -> (cand -> (cand * cand list) option) -> tr -> cache -> tr * cache
+
 val mk_uniquified : nat -> tr -> cache -> tr * cache
 
 val merged_add : tr -> tr -> cache -> tr
@@ -264,6 +276,7 @@ type filt =
 | FUniquifier
 | FSingleChar
 | FCharset
+| FSimplifier of (cand -> (cand * cand list) option)
 
 val add_filter : menu -> filt -> menu
 
@@ -348,6 +361,22 @@ type spec =
 | SpCharset of spec
 
 val build : spec -> tr
+
+type sdict = (n * n list) list
+
+val dict_find : sdict -> n -> n list option
+
+val dedupN : n list -> n list -> n list
+
+val with_text : cand -> text -> cand
+
+val default_of : sdict -> n -> n
+
+val dict_conv : sdict -> cand -> (cand * cand list) option
+
+val dict_a : sdict
+
+val dict_b : sdict
 
 val menu_of : spec list -> filt list -> menu
 
